@@ -1,13 +1,650 @@
+// C01 harness: (1) dumps goja's actual compiler output for generated programs (VerifDump), runs them under a
+// tracing wrapper (VerifTrace) and emits code bodies + observed sp deltas as Gallina terms for the verified
+// bytecode verifier; (2) crash search over generated / mutated / arbitrary inputs through Compile, RunString,
+// eval, new Function and parser.ParseFile.
 package main
 
 import (
+	"encoding/base64"
+	"encoding/json"
+	"errors"
 	"fmt"
 	"os"
+	"regexp"
+	"runtime"
 	"sort"
+	"strings"
+	"time"
 
 	"github.com/dop251/goja"
+	"github.com/dop251/goja/parser"
 	"verifharness/vh"
 )
+
+type Case struct {
+	Kind   string `json:"kind"`          // valid | mutant | bytes | nest
+	API    string `json:"api"`           // run | eval | feval | function | parse | ceval
+	Strict bool   `json:"strict"`        //
+	Src    string `json:"src,omitempty"` // source text (valid UTF-8)
+	B64    string `json:"b64,omitempty"` // source bytes when not valid UTF-8
+}
+
+func (c Case) source() string {
+	if c.B64 != "" {
+		b, _ := base64.StdEncoding.DecodeString(c.B64)
+		return string(b)
+	}
+	return c.Src
+}
+
+const (
+	crashRuntimePanic = 1  // Go runtime.Error escaped
+	crashOtherPanic   = 2  // some other undocumented panic value escaped
+	crashErrKind      = 4  // returned error is not of a documented kind
+	crashDiagText     = 8  // "compiler bug" / "BUG" / "internal error" diagnostic
+	crashIdle         = 16 // VerifIdle imbalance after a normal / thrown outcome
+)
+
+var failTerm = "mkCase [] 32"
+
+// ---------------------------------------------------------------------------------------------
+// bodies
+
+type bodyT struct {
+	path  string
+	mode  int
+	ins   []goja.VerifInstr
+	edges map[[3]int]bool
+}
+
+func kindName(in goja.VerifInstr) string {
+	n := strings.TrimPrefix(strings.TrimPrefix(in.Name, "*"), "goja.")
+	if n == "yieldMarker" {
+		if in.Ops["empty"] == 1 {
+			return "yield_empty"
+		}
+		switch in.Ops["resultType"] {
+		case 1:
+			return "yield_plain"
+		case 2:
+			return "yield_res"
+		case 3:
+			return "yield_delegate"
+		case 4:
+			return "yield_delegate_res"
+		case 5:
+			return "yield_await"
+		}
+		return "yield_unknown"
+	}
+	return n
+}
+
+func groupBodies(dump []goja.VerifInstr, topMode int) ([]*bodyT, map[string]*bodyT) {
+	var order []*bodyT
+	by := map[string]*bodyT{}
+	for _, in := range dump {
+		b := by[in.Path]
+		if b == nil {
+			mode := 1
+			if in.Path == "" {
+				mode = topMode
+			} else if in.Sub == "initFields" {
+				mode = 0
+			}
+			b = &bodyT{path: in.Path, mode: mode, edges: map[[3]int]bool{}}
+			by[in.Path] = b
+			order = append(order, b)
+		}
+		b.ins = append(b.ins, in)
+	}
+	return order, by
+}
+
+func coqBody(b *bodyT, unknown map[string]bool) string {
+	var sb strings.Builder
+	fmt.Fprintf(&sb, "mkBody %d [", b.mode)
+	for i, in := range b.ins {
+		if i > 0 {
+			sb.WriteString("; ")
+		}
+		k := kindName(in)
+		fields, ok := kindFields[k]
+		if !ok {
+			unknown[k] = true
+			sb.WriteString("(K_unknown, [])")
+			continue
+		}
+		sb.WriteString("(K_" + k + ", [")
+		for j, f := range fields {
+			if j > 0 {
+				sb.WriteString("; ")
+			}
+			sb.WriteString(vh.CoqZ(in.Ops[f]))
+		}
+		sb.WriteString("])")
+	}
+	sb.WriteString("] [")
+	var es [][3]int
+	for e := range b.edges {
+		es = append(es, e)
+	}
+	sort.Slice(es, func(i, j int) bool {
+		for k := 0; k < 3; k++ {
+			if es[i][k] != es[j][k] {
+				return es[i][k] < es[j][k]
+			}
+		}
+		return false
+	})
+	for i, e := range es {
+		if i > 0 {
+			sb.WriteString("; ")
+		}
+		fmt.Fprintf(&sb, "(%d, %d, %s)", e[0], e[1], vh.CoqZ(int64(e[2])))
+	}
+	sb.WriteString("]")
+	return sb.String()
+}
+
+// edgesFromTrace turns the executed-instruction records into (pc -> next pc of the same activation, sp delta).
+func edgesFromTrace(recs []goja.VerifTraceRec, by map[string]*bodyT, executed map[string]bool) {
+	sort.SliceStable(recs, func(i, j int) bool { return recs[i].Seq < recs[j].Seq })
+	type lastT struct {
+		rec   goja.VerifTraceRec
+		valid bool
+	}
+	last := map[int]*lastT{}
+	for _, r := range recs {
+		d := r.DepthBefore
+		name := strings.TrimPrefix(strings.TrimPrefix(r.Name, "*"), "goja.")
+		executed[name] = true
+		if l := last[d]; l != nil && l.valid && l.rec.Path == r.Path && r.PC != 0 {
+			if b := by[r.Path]; b != nil {
+				b.edges[[3]int{l.rec.PC, r.PC, r.SpBefore - l.rec.SpBefore}] = true
+			}
+		}
+		for k := range last {
+			if k > d {
+				delete(last, k)
+			}
+		}
+		valid := true
+		if name == "yieldMarker" || r.DepthAfter < r.DepthBefore {
+			valid = false // generator / async suspension, return: the activation is left
+		}
+		last[d] = &lastT{rec: r, valid: valid}
+	}
+}
+
+// ---------------------------------------------------------------------------------------------
+// oracle
+
+var diagRe = regexp.MustCompile(`(?i)compiler bug|runtime bug|internal error|unreachable`)
+
+func classifyErr(err error, checkBUG bool) (string, int) {
+	if err == nil {
+		return "ok", 0
+	}
+	bits := 0
+	msg := err.Error()
+	if diagRe.MatchString(msg) || (checkBUG && strings.Contains(msg, "BUG")) {
+		bits |= crashDiagText
+	}
+	var ex *goja.Exception
+	var se *goja.CompilerSyntaxError
+	var re *goja.CompilerReferenceError
+	var ie *goja.InterruptedError
+	var so *goja.StackOverflowError
+	var el parser.ErrorList
+	switch {
+	case errors.As(err, &ie):
+		return "Interrupted", bits
+	case errors.As(err, &so):
+		return "StackOverflow", bits
+	case errors.As(err, &se):
+		return "SyntaxError", bits
+	case errors.As(err, &re):
+		return "ReferenceError", bits
+	case errors.As(err, &el):
+		return "SyntaxError", bits
+	case errors.As(err, &ex):
+		kind := "Thrown"
+		if o, ok := ex.Value().(*goja.Object); ok {
+			if c := o.Get("constructor"); c != nil {
+				if co, ok := c.(*goja.Object); ok {
+					if n := co.Get("name"); n != nil {
+						switch n.String() {
+						case "TypeError", "RangeError", "SyntaxError", "ReferenceError":
+							kind = n.String()
+						}
+					}
+				}
+			}
+		}
+		return kind, bits
+	}
+	return "GoError", bits | crashErrKind
+}
+
+// protect runs f and converts an escaping panic into crash bits.
+func protect(f func()) (bits int, info string) {
+	defer func() {
+		if x := recover(); x != nil {
+			if _, ok := x.(runtime.Error); ok {
+				bits |= crashRuntimePanic
+			} else {
+				bits |= crashOtherPanic
+			}
+			info = fmt.Sprintf("PANIC %T: %.300v", x, x)
+		}
+	}()
+	f()
+	return
+}
+
+func newRuntime() *goja.Runtime {
+	rt := goja.New()
+	rt.SetMaxCallStackSize(300)
+	return rt
+}
+
+func idleBits(rt *goja.Runtime, outcome string) (int, string) {
+	if outcome == "Interrupted" || outcome == "StackOverflow" {
+		return 0, "" // C03/C15 territory (F16, F17)
+	}
+	m := goja.VerifIdle(rt)
+	want := map[string]int{"sp": 0, "sb": -1, "callStack": 0, "tryStack": 0, "iterStack": 0, "refStack": 0, "prgNil": 1, "stashGlobal": 1, "privEnvNil": 1}
+	for k, v := range want {
+		if m[k] != v {
+			return crashIdle, fmt.Sprintf("idle:%s=%d", k, m[k])
+		}
+	}
+	return 0, ""
+}
+
+type result struct {
+	bodies  []*bodyT
+	crash   int
+	obs     []string
+	tags    []string
+	unknown map[string]bool
+	exec    map[string]bool
+	ninstr  int
+}
+
+func (res *result) note(format string, a ...interface{}) { res.obs = append(res.obs, fmt.Sprintf(format, a...)) }
+
+// runProgram: dump, instrument, run, trace.
+func (res *result) runProgram(p *goja.Program, topMode int, run bool, checkBUG bool) {
+	dump := goja.VerifDump(p)
+	res.ninstr += len(dump)
+	order, by := groupBodies(dump, topMode)
+	res.bodies = append(res.bodies, order...)
+	if !run {
+		return
+	}
+	tr := goja.VerifTrace(p, 6000)
+	rt := newRuntime()
+	n := 0
+	tr.Hook = func(*goja.VerifTraceRec) {
+		n++
+		if n == 30000 {
+			rt.Interrupt("budget")
+		}
+	}
+	timer := time.AfterFunc(2*time.Second, func() { rt.Interrupt("timeout") })
+	var err error
+	bits, info := protect(func() { _, err = rt.RunProgram(p) })
+	timer.Stop()
+	res.crash |= bits
+	outcome := "HostPanic"
+	if bits == 0 {
+		var eb int
+		outcome, eb = classifyErr(err, checkBUG)
+		res.crash |= eb
+		if eb != 0 {
+			info = fmt.Sprintf("%.300v", err)
+		}
+		ib, ii := idleBits(rt, outcome)
+		res.crash |= ib
+		if ib != 0 {
+			info += " " + ii
+		}
+	}
+	res.note("run:%s %s", outcome, info)
+	res.tags = append(res.tags, "run:"+outcome)
+	edgesFromTrace(tr.Recs, by, res.exec)
+}
+
+func execCase(c Case) vh.Record {
+	src := c.source()
+	res := &result{unknown: map[string]bool{}, exec: map[string]bool{}}
+	checkBUG := c.Kind != "bytes"
+	res.tags = append(res.tags, "kind:"+c.Kind, "api:"+c.API, fmt.Sprintf("strict:%v", c.Strict))
+	switch c.API {
+	case "run":
+		var p *goja.Program
+		var err error
+		bits, info := protect(func() { p, err = goja.Compile("c01.js", src, c.Strict) })
+		res.crash |= bits
+		if bits != 0 {
+			res.note("compile:%s", info)
+		} else if err != nil {
+			k, eb := classifyErr(err, checkBUG)
+			res.crash |= eb
+			res.note("compile:%s %.200v", k, err)
+			res.tags = append(res.tags, "compile:"+k)
+		} else {
+			res.tags = append(res.tags, "compile:ok")
+			res.runProgram(p, 0, true, checkBUG)
+		}
+	case "ceval":
+		// compile as eval code (global eval and direct eval inside a function), verify, do not run
+		rt := newRuntime()
+		for _, where := range []string{"global", "function"} {
+			var p *goja.Program
+			var err error
+			bits, info := protect(func() {
+				if where == "global" {
+					p, err = goja.VerifCompileEval(rt, src, c.Strict)
+				} else {
+					rt.Set("__ceval", func(goja.FunctionCall) goja.Value {
+						p, err = goja.VerifCompileEval(rt, src, c.Strict)
+						return goja.Undefined()
+					})
+					_, err2 := rt.RunString("(function(p0, p1) { let l0 = 1; var v0; return __ceval() })(1, 2)")
+					if err == nil {
+						err = err2
+					}
+				}
+			})
+			res.crash |= bits
+			if bits != 0 {
+				res.note("ceval-%s:%s", where, info)
+				continue
+			}
+			k, eb := classifyErr(err, checkBUG)
+			res.crash |= eb
+			res.tags = append(res.tags, "ceval-"+where+":"+k)
+			if err == nil && p != nil {
+				n0 := len(res.bodies)
+				res.runProgram(p, 0, false, checkBUG)
+				for _, b := range res.bodies[n0:] {
+					b.path = where + ":" + b.path
+				}
+			}
+		}
+	case "eval", "feval", "function":
+		rt := newRuntime()
+		rt.Set("SRC", src)
+		script := map[string]string{
+			"eval":     "eval(SRC)",
+			"feval":    "(function(p0) { 'use strict'; let l0; return eval(SRC) })(1)",
+			"function": "new Function('p0', SRC)(1)",
+		}[c.API]
+		if c.API == "feval" && !c.Strict {
+			script = "(function(p0) { let l0; var v0 = 2; return eval(SRC) })(1)"
+		}
+		timer := time.AfterFunc(2*time.Second, func() { rt.Interrupt("timeout") })
+		var err error
+		bits, info := protect(func() { _, err = rt.RunString(script) })
+		timer.Stop()
+		res.crash |= bits
+		outcome := "HostPanic"
+		if bits == 0 {
+			var eb int
+			outcome, eb = classifyErr(err, checkBUG)
+			res.crash |= eb
+			ib, ii := idleBits(rt, outcome)
+			res.crash |= ib
+			info = ii
+			if eb != 0 {
+				info += fmt.Sprintf(" %.300v", err)
+			}
+		}
+		res.note("%s:%s %s", c.API, outcome, info)
+		res.tags = append(res.tags, c.API+":"+outcome)
+	case "parse":
+		var err error
+		bits, info := protect(func() { _, err = parser.ParseFile(nil, "c01.js", src, 0) })
+		res.crash |= bits
+		k, eb := classifyErr(err, checkBUG)
+		res.crash |= eb
+		res.note("parse:%s %s", k, info)
+		res.tags = append(res.tags, "parse:"+k)
+	}
+	// Gallina term
+	var bs []string
+	for _, b := range res.bodies {
+		bs = append(bs, coqBody(b, res.unknown))
+	}
+	term := fmt.Sprintf("mkCase [%s] %d", strings.Join(bs, "; "), res.crash)
+	for k := range res.unknown {
+		res.tags = append(res.tags, "unknown-kind:"+k)
+	}
+	for k := range res.exec {
+		res.tags = append(res.tags, "exec:"+k)
+	}
+	seen := map[string]bool{}
+	for _, b := range res.bodies {
+		for _, in := range b.ins {
+			k := kindName(in)
+			if !seen[k] {
+				seen[k] = true
+				res.tags = append(res.tags, "dump:"+k)
+			}
+		}
+	}
+	res.tags = append(res.tags, fmt.Sprintf("bodies:%d", minInt(len(res.bodies), 9)))
+	obs := fmt.Sprintf("crash=%d bodies=%d instrs=%d %s", res.crash, len(res.bodies), res.ninstr, strings.Join(res.obs, " | "))
+	if len(obs) > 1500 {
+		obs = obs[:1500]
+	}
+	return vh.Record{Case: vh.MustJSON(c), Coq: term, Obs: obs, Tags: res.tags, Nontrivial: len(res.bodies) > 0 || c.Kind != "valid"}
+}
+
+func minInt(a, b int) int {
+	if a < b {
+		return a
+	}
+	return b
+}
+
+// ---------------------------------------------------------------------------------------------
+// search inputs
+
+var tokRe = regexp.MustCompile("[A-Za-z_$#][A-Za-z0-9_$]*|[0-9][0-9a-zA-Z_.]*|\"(?:[^\"\\\\\\n]|\\\\.)*\"|'(?:[^'\\\\\\n]|\\\\.)*'|`[^`]*`|=>|\\.\\.\\.|\\?\\.|\\?\\?=?|&&=?|\\|\\|=?|\\*\\*=?|>>>=?|<<=?|>>=?|[=!]==?|[+\\-*/%&|^<>]=|\\+\\+|--|\\s+|.")
+
+var tokPool = []string{"var", "let", "const", "function", "function*", "async", "await", "yield", "yield*", "class", "extends", "super", "static", "get", "set",
+	"new", "new.target", "delete", "typeof", "void", "in", "of", "instanceof", "this", "null", "true", "false", "if", "else", "for", "while", "do", "switch", "case",
+	"default", "break", "continue", "return", "throw", "try", "catch", "finally", "with", "debugger", "import", "export", "enum", "eval", "arguments",
+	"(", ")", "[", "]", "{", "}", ";", ",", ".", "?.", "...", "=>", "=", "+=", "&&=", "||=", "??=", "**", "??", "&&", "||", "?", ":", "+", "-", "++", "--", "!", "~",
+	"<", ">", "<<", ">>>", "==", "===", "`", "${", "\"", "'", "/", "/=", "\\", "\\u", "\\u{", "\\x", "#", "#p", "@", "0", "1", "1n", "0x", "1e", "1.", ".1", "0b", "08", "1_", "\n", " ",
+	"a", "o", "f", "x", "/a/g", "/[/", "/(/", "/\\", "`${", "`${a}`", "\"\\", "'\\u{110000}'", "\"\\u{", "\\u0061", "a\\u{62}", " ", "\ufeff", "<!--", "-->", "/*", "*/", "//",
+	"label:", "async x =>", "(a, b) =>", "[a, b] =", "{a, b} =", "...a", "a?.b", "a?.[0]", "a?.()", "`a${b}c`", "class A {}", "function f() {}", "get x() {}", "static {}", "#x in o"}
+
+func mutate(r *vh.Rng, src string) string {
+	toks := tokRe.FindAllString(src, -1)
+	if len(toks) == 0 {
+		return src
+	}
+	n := 1 + r.Intn(4)
+	for i := 0; i < n && len(toks) > 0; i++ {
+		p := r.Intn(len(toks))
+		switch r.Intn(7) {
+		case 0:
+			toks = append(toks[:p], toks[p+1:]...)
+		case 1:
+			toks = append(toks[:p+1], append([]string{toks[p]}, toks[p+1:]...)...)
+		case 2:
+			if p+1 < len(toks) {
+				toks[p], toks[p+1] = toks[p+1], toks[p]
+			}
+		case 3:
+			toks[p] = tokPool[r.Intn(len(tokPool))]
+		case 4:
+			toks = append(toks[:p+1], append([]string{tokPool[r.Intn(len(tokPool))]}, toks[p+1:]...)...)
+		case 5:
+			toks = toks[:p+1] // truncate
+		default:
+			q := r.Intn(len(toks))
+			toks[p] = toks[q]
+		}
+	}
+	return strings.Join(toks, "")
+}
+
+var byteAlphabet = []byte("abfox01 \n\t(){}[];,.=+-*/%<>!&|^~?:'\"`\\$#@_ux")
+
+func genBytes(r *vh.Rng) []byte {
+	var n int
+	switch r.Intn(10) {
+	case 0:
+		n = 1 + r.Intn(4)
+	case 1:
+		n = 2000 + r.Intn(60000)
+	default:
+		n = 1 + r.Intn(200)
+	}
+	b := make([]byte, n)
+	mode := r.Intn(4)
+	for i := range b {
+		switch mode {
+		case 0:
+			b[i] = byte(r.Intn(256))
+		case 1:
+			b[i] = byteAlphabet[r.Intn(len(byteAlphabet))]
+		case 2:
+			if r.Chance(10) {
+				b[i] = byte(r.Intn(256))
+			} else {
+				b[i] = byteAlphabet[r.Intn(len(byteAlphabet))]
+			}
+		default:
+			b[i] = byte(0x20 + r.Intn(0x5f))
+		}
+	}
+	if r.Chance(30) {
+		frag := []string{"\"\\u{", "\"\\x", "'\\u12", "`${", "/[", "/(?<", "\\u", "0x", "1e", "0b", "1__", "\"\\", "/\\", "/a/\\u0067", "\xef\xbb\xbf", "\xe2\x80\xa8", "\xed\xa0\x80", "\xff", "#", "#\\u{", "a\\u{", "async(", "class{", "({get", "`\\u{", "`\\x", "<!--", "/*"}[r.Intn(28)]
+		pos := len(b) - r.Intn(minInt(len(b), 8)+1)
+		b = append(b[:pos], append([]byte(frag), b[pos:]...)...)
+		if r.Bool() {
+			b = b[:pos+len(frag)] // truncated right after the fragment
+		}
+	}
+	return b
+}
+
+func genNest(r *vh.Rng) string {
+	d := 20 + r.Intn(180)
+	open := []string{"(", "[", "{a:", "a=>", "(function(){", "[...", "`${", "f(", "!", "-", "{", "if(1)", "new ", "a?.[", "class{static{", "async()=>", "(a,", "a?b:", "[a,b]=[", "x=y=", "try{", "for(;;){", "with(o)", "L:", "yield ", "await "}
+	closeOf := map[string]string{"(": ")", "[": "]", "{a:": "}", "a=>": "", "(function(){": "})()", "[...": "]", "`${": "}`", "f(": ")", "!": "", "-": "", "{": "}", "if(1)": "", "new ": "", "a?.[": "]", "class{static{": "}}", "async()=>": "", "(a,": ")", "a?b:": "", "[a,b]=[": "]", "x=y=": "", "try{": "}finally{}", "for(;;){": "break}", "with(o)": "", "L:": "", "yield ": "", "await ": ""}
+	o := open[r.Intn(len(open))]
+	mid := []string{"1", "a", "", "o.p", "x=1", "break", "super", "#p", "...a"}[r.Intn(9)]
+	s := strings.Repeat(o, d) + mid
+	if r.Chance(75) {
+		k := d
+		if r.Chance(25) {
+			k = r.Intn(d + 1) // unbalanced
+		}
+		s += strings.Repeat(closeOf[o], k)
+	}
+	if r.Chance(20) {
+		s = "function* g(){" + s + "}"
+	}
+	return s
+}
+
+func mkCase(kind, api string, strict bool, src string) Case {
+	c := Case{Kind: kind, API: api, Strict: strict}
+	if json.Valid([]byte(`"`+strings.ReplaceAll(strings.ReplaceAll(src, `\`, `\\`), `"`, `\"`)+`"`)) && validUTF8NoCtl(src) {
+		c.Src = src
+	} else {
+		c.B64 = base64.StdEncoding.EncodeToString([]byte(src))
+	}
+	return c
+}
+
+func validUTF8NoCtl(s string) bool {
+	for _, r := range s {
+		if r == 0xFFFD {
+			return false
+		}
+	}
+	b, _ := json.Marshal(s)
+	var back string
+	return json.Unmarshal(b, &back) == nil && back == s
+}
+
+func genCase(r *vh.Rng) Case {
+	strict := r.Chance(35)
+	switch r.Pick(40, 6, 24, 10, 6, 14) {
+	case 0:
+		return mkCase("valid", "run", strict, genProgram(r, strict))
+	case 1:
+		g := &gctx{r: r, strict: strict, budget: 40}
+		var sb strings.Builder
+		for i, n := 0, 1+r.Intn(3); i < n; i++ {
+			sb.WriteString(g.stmt(3) + "\n")
+		}
+		return mkCase("valid", "ceval", strict, sb.String())
+	case 2:
+		src := mutate(r, genProgram(r, strict))
+		return mkCase("mutant", []string{"run", "run", "run", "eval", "feval", "function", "parse"}[r.Intn(7)], strict, src)
+	case 3:
+		return mkCase("bytes", []string{"run", "run", "eval", "function", "parse", "feval"}[r.Intn(6)], strict, string(genBytes(r)))
+	case 4:
+		return mkCase("nest", []string{"run", "eval", "function", "parse"}[r.Intn(4)], strict, genNest(r))
+	default:
+		g := &gctx{r: r, strict: strict, budget: 50}
+		var sb strings.Builder
+		for i, n := 0, 1+r.Intn(3); i < n; i++ {
+			sb.WriteString(g.stmt(3) + "\n")
+		}
+		src := sb.String()
+		if r.Chance(40) {
+			src = mutate(r, src)
+		}
+		return mkCase("valid", []string{"eval", "feval", "function"}[r.Intn(3)], strict, src)
+	}
+}
+
+func main() {
+	m := vh.ParseArgs()
+	switch m.Cmd {
+	case "gen":
+		w := vh.NewWriter(m.Out)
+		r := vh.NewRng(m.Seed)
+		for i := 0; i < m.N; i++ {
+			c := genCase(r)
+			cj := vh.MustJSON(c)
+			vh.Guard(w, cj, failTerm, 20, func() vh.Record { return execCase(c) })
+		}
+		w.Close()
+	case "replay":
+		w := vh.NewWriter(m.Out)
+		for _, cj := range vh.ReadCases(m.In) {
+			var c Case
+			if err := json.Unmarshal(cj, &c); err != nil {
+				panic(err)
+			}
+			vh.Guard(w, cj, failTerm, 20, func() vh.Record { return execCase(c) })
+		}
+		w.Close()
+	case "dump":
+		dumpCmd(m)
+	case "src":
+		r := vh.NewRng(m.Seed)
+		for i := 0; i < m.N; i++ {
+			c := genCase(r)
+			fmt.Printf("// ---- %s %s strict=%v\n%s\n", c.Kind, c.API, c.Strict, c.source())
+		}
+	default:
+		fmt.Fprintln(os.Stderr, "unknown command", m.Cmd)
+		os.Exit(2)
+	}
+}
 
 func dumpCmd(m vh.Mode) {
 	src, _ := os.ReadFile(m.In)
@@ -36,13 +673,5 @@ func dumpCmd(m vh.Mode) {
 		for _, r := range t.Recs {
 			fmt.Printf("%-6s %3d %-24s sp %d->%d sb %d depth %d->%d try %d->%d pc->%d same=%v panic=%v\n", r.Path, r.PC, r.Name, r.SpBefore, r.SpAfter, r.Sb, r.DepthBefore, r.DepthAfter, r.TryBefore, r.TryAfter, r.PcAfter, r.SamePrgAfter, r.Panicked)
 		}
-	}
-}
-
-func main() {
-	m := vh.ParseArgs()
-	switch m.Cmd {
-	case "dump":
-		dumpCmd(m)
 	}
 }
